@@ -28,6 +28,7 @@ import (
 	"os"
 	"os/exec"
 	"path/filepath"
+	"runtime"
 	"sort"
 	"strconv"
 	"strings"
@@ -110,8 +111,10 @@ func errClass(e error) string {
 		return "item"
 	case strings.Contains(m, "same tip names"), strings.Contains(m, "same number of tips"):
 		return "taxa"
+	case strings.Contains(m, "several tips have the same name"):
+		return "dup"
 	}
-	return "other"
+	return "other" // an error all the same: the oracle only asks for one, the classes serve the tie
 }
 
 var errInjected = errors.New("verif: injected erroneous tree")
@@ -286,11 +289,14 @@ func runLib(c *core.Ctx, r request) (res result) {
 		if err := ref.ReinitIndexes(); err != nil {
 			return result{Outcome: "err:" + errClass(err), Took: -1}
 		}
-		_, err := support.TBE(ref, feed(items, &sent), r.Threads, false, stats, stats, 0.3, logf, nil)
+		raw, err := support.TBE(ref, feed(items, &sent), r.Threads, r.has('w'), stats, stats, 0.3, logf, nil)
 		if err != nil {
 			return result{Outcome: "err:" + errClass(err), Took: -1}
 		}
 		res.Outcome, res.Records = "ok", supports(ref)
+		if r.has('w') && raw != nil { // --out-raw: the clone with the average transfer distances as node names
+			defer func() { res.Records += "#raw:" + core.Escape(raw.Newick()) }()
+		}
 		if stats {
 			// the moved-taxa statistics (tallies shared by the workers under a mutex) are part of the result
 			logf.Sync()
@@ -371,9 +377,23 @@ func child(c *core.Ctx, file string) {
 		if err != nil {
 			res = result{Outcome: "crash:" + core.Escape("harness: "+err.Error()), Took: -1}
 		} else {
+			g0 := runtime.NumGoroutine()
 			if p, msg := core.Safe(func() { res = runLib(c, r) }); p {
 				res = result{Outcome: "panic:" + core.Escape(msg), Took: -1}
 			}
+			// goroutines the call left behind (after giving them 30 ms to finish): the reader/feeder blocked
+			// for ever on a channel nobody reads any more, a worker that never ends …
+			left := 0
+			for k := 0; k < 60; k++ {
+				if left = runtime.NumGoroutine() - g0; left <= 0 {
+					break
+				}
+				time.Sleep(500 * time.Microsecond)
+			}
+			if left < 0 {
+				left = 0
+			}
+			res.Order += ";" + strconv.Itoa(left)
 		}
 		fmt.Fprintf(c.W, "R\t%d\t%s\t%s\t%d;%s\n", i, res.Outcome, res.Records, res.Took, res.Order)
 		c.W.Flush()
@@ -750,6 +770,10 @@ func runCLI(c *core.Ctx, cfg *config, r request) result {
 					res.Outcome = "err:taxa"
 				case strings.Contains(m, "newick Error"), m == "EOF", strings.Contains(m, "Unterminated tree"):
 					res.Outcome = "err:item"
+				case strings.Contains(m, "several tips have the same name"):
+					res.Outcome = "err:dup"
+				default:
+					res.Outcome = "err:other" // an error message all the same
 				}
 				break
 			}
@@ -1055,6 +1079,9 @@ func treeOpts(g *core.G, kind string, big bool) core.TreeOpts {
 	if g.Chance(0.15) || (big && g.Chance(0.5)) {
 		o.MinTips, o.MaxTips = 10, 24
 	}
+	if g.Chance(0.05) {
+		o.MinTips, o.MaxTips = 2, 3 // tiny references: no internal branch at all
+	}
 	// degenerate shapes and values: single-child inner nodes, absent lengths
 	if g.Chance(0.12) {
 		o.Singles = 0.2
@@ -1073,6 +1100,17 @@ func rootTip(g *core.G, n *core.N, o *core.TreeOpts) *core.N {
 		n.E.Len = g.Length(o)
 	}
 	return &core.N{Name: fmt.Sprintf("%s%d", o.TipPrefix, len(n.TipNames())), Kids: []*core.N{n}}
+}
+
+func leaves(n *core.N) []*core.N {
+	if len(n.Kids) == 0 {
+		return []*core.N{n}
+	}
+	var out []*core.N
+	for _, k := range n.Kids {
+		out = append(out, leaves(k)...)
+	}
+	return out
 }
 
 // tableCase re-extracts the goroutine table from the repository under test and reports the rows that
@@ -1096,6 +1134,30 @@ func tableEmit(c *core.Ctx, gos []*xGo, err error) (nleaks, nunsync int) {
 		return 0, 0
 	}
 	var leaks, unsync []string
+	// the pools outside the four computations the property names (cmd/edgetrees.go, cmd/roccurve.go) are
+	// extracted too; their rows are reported apart (4th field) and break nothing
+	var all []*xGo
+	all, gos = gos, nil
+	var outside []string
+	for _, g := range all {
+		if !strings.HasPrefix(g.File, "cmd/") {
+			gos = append(gos, g)
+			continue
+		}
+		for _, e := range g.Exits {
+			if g.Counted && !e.Done {
+				outside = append(outside, fmt.Sprintf("%s:%d %s: %s at line %d leaves without wg.Done", g.File, g.Line, g.Fn, e.Kind, e.Line))
+			}
+		}
+		for _, l := range g.RetNoClose {
+			outside = append(outside, fmt.Sprintf("%s:%d %s: return at line %d leaves the channel it is responsible for open", g.File, g.Line, g.Fn, l))
+		}
+		for _, w := range g.Writes {
+			if w.Sync == "none" {
+				outside = append(outside, fmt.Sprintf("%s:%d %s: %s (%s) line %d unsynchronised", g.File, g.Line, g.Fn, w.Var, w.How, w.Line))
+			}
+		}
+	}
 	for _, g := range gos {
 		for _, e := range g.Exits {
 			if g.Counted && !e.Done {
@@ -1163,7 +1225,8 @@ func tableEmit(c *core.Ctx, gos []*xGo, err error) (nleaks, nunsync int) {
 			}
 		}
 	}
-	c.Emit("C11.table", "ok", core.StrList(leaks), core.StrList(unsync))
+	c.Emit("C11.table", "ok", core.StrList(leaks), core.StrList(unsync), core.StrList(outside))
+	c.Emit("C11.selftest", "broken-shapes") // the driver's model comparison on deliberately broken shapes
 	return len(leaks), len(unsync)
 }
 
@@ -1273,6 +1336,9 @@ func generate(c *core.Ctx, cfg *config) {
 		if kind == "tbe" && g.Chance(0.5) {
 			flags += "a"
 		}
+		if kind == "tbe" && g.Chance(0.3) {
+			flags += "w"
+		}
 		if kind == "fbp" && g.Chance(0.15) {
 			flags += "c"
 		}
@@ -1297,12 +1363,19 @@ func generate(c *core.Ctx, cfg *config) {
 		}
 		add(items)
 		// an erroneous / taxon-mismatched tree at every position of the stream (every other collection)
-		bad := g.Intn(3)
+		bad := g.Intn(4)
 		for p := 0; p <= n && (i/4)%2 == 0; p++ {
 			var b string
 			switch bad {
 			case 0:
 				b = "!err"
+			case 3: // the right tips, but one name twice: the tree cannot be indexed
+				x, _ := g.Tree(o2)
+				if lv := leaves(x); len(lv) >= 2 {
+					lv[len(lv)-1].Name = lv[0].Name
+				}
+				core.NumberEdges(x)
+				b = x.Dump()
 			case 1: // same number of tips, other names
 				o3 := o2
 				o3.TipPrefix = "u"
